@@ -50,3 +50,4 @@ def run(repo, res, tier):
     # the whole-document rewrite that produces self.doc handles every occurrence (no flag in the count position)
     from .. import apirules as _ap8
     _ap8.rule_re_flag_pos(repo, res)
+    _ap8.rule_f2d(repo, res)
